@@ -375,21 +375,27 @@ func guardPrecedence(c *Ctx) {
 			}
 			// the index expression: a parameter-derived string must be upper-cased; loop keys and the builder's own parameter are fine
 			o := core.ObjOf(info, ix.Index)
+			viaHelper := false
 			if o != nil {
 				if !c.P.Locals(fi).Params[o] {
-					return true // range key or local
-				}
-				if !fi.Obj.Exported() {
-					return true // internal builder: its constants are checked by ENC-CASE/const
+					// a local that holds the normalised method (m := strings.ToUpper(method)) is a lookup by a
+					// parameter too; range keys and other locals are not
+					if !c.derivedFromParam(fi, ix.Index, 0) {
+						return true
+					}
+				} else if !fi.Obj.Exported() {
+					// an unexported helper keyed by its own parameter: a lookup helper when an exported query of the
+					// analyzer hands it a value derived from its own parameter; the internal builder otherwise (its
+					// constants are checked by ENC-CASE/const)
+					if !c.helperFedByQuery(fi, o) {
+						return true
+					}
+					viaHelper = true
 				}
 			}
 			look++
-			okc := false
-			if call, ok := core.Unparen(ix.Index).(*ast.CallExpr); ok {
-				if callee := c.P.CalleeAny(fi, call); callee != nil && callee.FullName() == "strings.ToUpper" {
-					okc = true
-				}
-			}
+			okc := c.upperCased(fi, ix.Index, 0)
+			_ = viaHelper
 			c.S.Decide(okc, "C14", "ENC-CASE", fi.QName()+"/lookup", c.P.Pos(ix.Pos()),
 				"the method is normalised with strings.ToUpper before the lookup",
 				"the operations index is looked up with "+exprStr(ix.Index)+" which is not upper-cased: lookups by lower-case method miss")
@@ -553,7 +559,11 @@ func init() {
 // from a lookup taken without comma-ok).
 func guardLookupFlag(c *Ctx) {
 	n := 0
-	for _, fi := range specQueryMethods(c) {
+	// the exported queries and the unexported helpers they delegate the lookup to
+	for _, fi := range core.SortedSet(c.P.Reachable(specQueryMethods(c)...)) {
+		if fi.Pkg.PkgPath != core.ModPath {
+			continue
+		}
 		sig := fi.Obj.Type().(*types.Signature)
 		k := sig.Results().Len()
 		if k < 2 || !core.IsBool(sig.Results().At(k-1).Type()) {
@@ -1184,4 +1194,120 @@ func guardOpFound(c *Ctx) {
 	if n < 3 {
 		c.S.Undecided("C15", "GUARD-OPFOUND", "floor", "-", fmt.Sprintf("only %d merge calls found in the lookups (confirmed by hand: 4)", n))
 	}
+}
+
+// upperCased: the expression is strings.ToUpper(…), a local defined only by such expressions, a key of a range
+// over the operations index, or a parameter of an unexported function every call site of which passes such a value.
+func (c *Ctx) upperCased(fi *core.FuncInfo, e ast.Expr, depth int) bool {
+	if depth > 4 {
+		return false
+	}
+	info := c.info(fi)
+	e = core.Unparen(e)
+	if call, ok := e.(*ast.CallExpr); ok {
+		callee := c.P.CalleeAny(fi, call)
+		return callee != nil && callee.FullName() == "strings.ToUpper"
+	}
+	o := core.ObjOf(info, e)
+	if o == nil {
+		return false
+	}
+	ld := c.P.Locals(fi)
+	if ld.Params[o] {
+		idx, isParam := c.paramIndexOf(fi, o)
+		if !isParam || fi.Obj.Exported() {
+			return false
+		}
+		sites := 0
+		for _, cs := range c.P.CG().In[fi.Obj] {
+			if cs.Call == nil || cs.Caller == nil || c.P.StaticCallee(cs.Caller, cs.Call) != fi.Obj || idx >= len(cs.Call.Args) {
+				continue
+			}
+			sites++
+			if !c.upperCased(cs.Caller, cs.Call.Args[idx], depth+1) {
+				return false
+			}
+		}
+		return sites > 0
+	}
+	defs := ld.Defs[o]
+	if len(defs) == 0 {
+		return false
+	}
+	for _, d := range defs {
+		switch d.Kind {
+		case core.DefAssign:
+			if !c.upperCased(fi, d.Expr, depth+1) {
+				return false
+			}
+		case core.DefRangeKey:
+			// keys of the index itself are upper case (ENC-CASE/const)
+			sel, ok := core.Unparen(d.Expr).(*ast.SelectorExpr)
+			if !ok || !core.IsMap(info.TypeOf(sel)) {
+				return false
+			}
+		default:
+			return false
+		}
+	}
+	return true
+}
+
+// derivedFromParam: a local whose definitions are computed from a parameter of the function.
+func (c *Ctx) derivedFromParam(fi *core.FuncInfo, e ast.Expr, depth int) bool {
+	if depth > 3 {
+		return false
+	}
+	info := c.info(fi)
+	o := core.ObjOf(info, e)
+	if o == nil {
+		return false
+	}
+	ld := c.P.Locals(fi)
+	if ld.Params[o] {
+		return true
+	}
+	for _, d := range ld.Defs[o] {
+		if d.Kind != core.DefAssign {
+			continue
+		}
+		found := false
+		ast.Inspect(d.Expr, func(n ast.Node) bool {
+			if id, ok := n.(*ast.Ident); ok {
+				if po := info.Uses[id]; po != nil && ld.Params[po] {
+					found = true
+				}
+			}
+			return true
+		})
+		if found {
+			return true
+		}
+	}
+	return false
+}
+
+// helperFedByQuery: some exported method of the analyzer calls the helper with an argument derived from its own
+// parameter at the position of o.
+func (c *Ctx) helperFedByQuery(fi *core.FuncInfo, o types.Object) bool {
+	idx, isParam := c.paramIndexOf(fi, o)
+	if !isParam {
+		return false
+	}
+	for _, cs := range c.P.CG().In[fi.Obj] {
+		if cs.Call == nil || cs.Caller == nil || !cs.Caller.Obj.Exported() || idx >= len(cs.Call.Args) {
+			continue
+		}
+		if c.P.StaticCallee(cs.Caller, cs.Call) != fi.Obj {
+			continue
+		}
+		arg := core.Unparen(cs.Call.Args[idx])
+		if call, isCall := arg.(*ast.CallExpr); isCall && len(call.Args) == 1 {
+			arg = core.Unparen(call.Args[0])
+		}
+		if c.derivedFromParam(cs.Caller, arg, 0) {
+			return true
+		}
+	}
+	return false
 }
